@@ -171,6 +171,21 @@ let run_case op t =
        let ss = [ Z.add c x; Z.sub c x ] in
        (legs (List.map tok_of ms),
         if rep_ok w1 && List.for_all (fits w1) (c :: x :: ss) then legs (List.map str_of_z ss) else "na")
+     | "scalar" ->
+       (* duration<w1; n1/d1> op scalar of width w2 *)
+       let c = next_z t in let x = next_z t in
+       let ms = [ smul_m p.a w2 c x; smul_m p.a w2 c x; sdiv_m p.a w2 c x; smod_m p.a w2 c x ] in
+       let nz = not (Z.eqb x Z0) in
+       let ss = if nz then [ Z.mul c x; Z.mul c x; Z.quot c x; Z.rem c x ] else [] in
+       (legs (List.map tok_of ms),
+        if pok && nz && fits w1 c && fits w2 x && List.for_all (fits wc) ss then legs (List.map str_of_z ss) else "na")
+     | "tp_arith" ->
+       let c1 = next_z t in let c2 = next_z t in
+       let ms = [ tp_plus_m p.a p.b c1 c2; tp_plus_r_m p.b p.a c2 c1; tp_minus_m p.a p.b c1 c2; tp_diff_m p.a p.b c1 c2 ] in
+       (legs (List.map tok_of ms),
+        if pok && f p.plus_ok c1 c2 && f p.minus_ok c1 c2 then
+          legs (List.map str_of_z [ f p.plus_s c1 c2; f p.plus_s c1 c2; f p.minus_s c1 c2; f p.minus_s c1 c2 ])
+        else "na")
      | "abs" ->
        let c = next_z t in
        (leg1 (f p.absm c), if pok && abs_ok w1 c then okz (abs_spec c) else "na")
